@@ -23,6 +23,9 @@ EXPLANATION = (
     "number grammar (DFA equivalence), FLAG is 0|1, COMMAWSP is one or more of comma/XML white space, COMMAND is tried "
     "before SKIP. Not decided: that the resulting absolute coordinates are right for every string (values)."
 )
+TECHNIQUE = (
+    "static analysis (no execution): lexer branch summaries by value tracking over the AST; builder callbacks followed per finite scenario (relative?, which operand is 'z', previous segment class) with segment-sequence extraction; token regexes compared as automata (language equivalence)"
+)
 ASSUMPTIONS = [
     "SVG 2 section 9.3 / CSS number grammar are the oracles (transcribed in this module).",
     "Python's re module matches alternatives left to right and quantifiers greedily (language facts are derived from pattern strings).",
